@@ -64,6 +64,12 @@ def weekday_range_match(sp, now, startup, sun):
                 break
     if start is None:
         return False
+    if b["date"] is None:
+        # a date-less end refers to the start's day (the next day when that would lie before the start)
+        t = c06.dt_on_date(b, start.date(), startup, sun)
+        if t < start:
+            t = c06.dt_on_date(b, start.date() + dt.timedelta(days=1), startup, sun)
+        return start <= now <= t
     for fwd in range(0, 8):
         day = start.date() + dt.timedelta(days=fwd)
         if day.isoweekday() % 7 == b["date"][1]:
@@ -83,7 +89,11 @@ def spec_match(sp, now, startup, sun):
     if is_weekday_range(sp):
         return weekday_range_match(sp, now, startup, sun)
     start = dt_for(sp["start"], now, startup, sun)
-    end = dt_for(sp["end"], now, startup, sun)
+    if sp["start"]["date"] is not None and sp["start"]["date"][0] == "ymd" and sp["end"]["date"] is None and sp["end"]["time"][0] != "now":
+        # mixed form: a date-less end refers to the start's day
+        end = c06.dt_on_date(sp["end"], start.date(), startup, sun)
+    else:
+        end = dt_for(sp["end"], now, startup, sun)
     if start <= end:
         return start <= now <= end
     return now >= start or now <= end
@@ -96,7 +106,17 @@ def active(specs, now, startup, sun):
 
 
 def gen_range(R, now):
-    form = R.weighted([(5, "daily"), (2, "dated"), (2, "sun"), (2, "now"), (2, "weekday")])
+    form = R.weighted([(5, "daily"), (2, "dated"), (2, "sun"), (2, "now"), (2, "weekday"), (2, "mixed")])
+    if form == "mixed":
+        # dated or weekday start, date-less end (later on the start's day): evaluated on other days as well
+        a = ["hms", R.choice([0, 8, 9]), R.choice([0, 30]), 0]
+        b = ["hms", R.choice([12, 17, 23]), R.choice([0, 59]), 0]
+        if R.bool():
+            d1 = now.date() + dt.timedelta(days=R.choice([-3, -1, 0, 0, 1]))
+            sd = ["ymd", d1.year, d1.month, d1.day]
+        else:
+            sd = ["dow", (now.isoweekday() + R.choice([0, 0, 6, 5, 1])) % 7]
+        return {"kind": "range", "start": {"date": sd, "time": a, "off": None, "short": R.bool()}, "end": {"date": None, "time": b, "off": None, "short": R.bool()}}
     if form == "weekday":
         # weekly ranges around the current weekday: same day, a few days, wrapping over the week end
         d0 = (now.isoweekday() + R.choice([0, 0, 6, 5, 1, 3])) % 7
